@@ -327,6 +327,25 @@ class FileSplice:
         self._set(self.s[:imp.end] + '\n' + free + self.s[imp.end:])
         self.stats.add('N7')
 
+    def wrap_simple_consts(self):
+        """wrap every top-level `const NAME: <integer type> = <literal expr>;` that is not yet inside verus!{} so that
+        constants added by a change are known to the verifier (a plain integer const has no proof obligations)"""
+        out = []
+        depth_verus = 0
+        for line in self.s.split('\n'):
+            st = line.strip()
+            if st.startswith('verus!{'):
+                depth_verus += 1
+            if st.startswith('} // verus!'):
+                depth_verus = max(0, depth_verus - 1)
+            m = re.match(r'^(pub(\([a-z]+\))?\s+)?const\s+\w+\s*:\s*(usize|u8|u16|u32|u64)\s*=\s*[0-9a-fA-Fx_ +*()]+;\s*(//.*)?$', line)
+            if m and depth_verus == 0 and not line.startswith(' '):
+                out.append('verus!{ ' + re.sub(r'\s*//.*$', '', line) + ' }')
+                self.stats.add('wrapped_items')
+            else:
+                out.append(line)
+        self._set('\n'.join(out))
+
     def loop_invariant(self, scopes, fn_rx, loop_rx, inv_text):
         """N5: insert `invariant ...` between a loop header and its `{` (ghost only)"""
         it = self.locate(scopes, fn_rx)
